@@ -70,9 +70,9 @@ func TestEncodingsRoundTripAndCanonicity(t *testing.T) {
 	for _, cd := range allCodecs() {
 		c := cd.c
 		pts := []Point{c.Neutral(), c.G, c.Neg(c.G), c.Double(c.G)}
-		n := 12
+		n := 5
 		if c.Kind == WeierstrassFp2 {
-			n = 4
+			n = 2
 		}
 		for i := 0; i < n; i++ {
 			pts = append(pts, d.randPoint(c))
